@@ -122,6 +122,28 @@ Theorem C16_split_off_spare_goes_to_the_end : forall len cap a b, a <= b <= len 
   (woff o < woff k -> wcap o = wlen o /\ woff k + wcap k = cap).
 Proof. exact split_off_spare_goes_to_the_end. Qed.
 
+(* split_at_spare: the initialised part and the spare capacity tile the buffer; into_flattened keeps element
+   count and order (element (i, j) becomes element i * n + j) and scales the window by n *)
+Theorem C16_spare_windows_tile :
+  forall len cap, len <= cap ->
+  let '(i, s) := spare_windows len cap in
+  woff i = 0 /\ wlen i = len /\ woff s = woff i + wlen i /\ wlen s = 0 /\
+  wcap i + wcap s = cap /\ woff s + wcap s = cap.
+Proof. exact spare_windows_tile. Qed.
+
+Theorem C16_flatten_keeps_count_and_order :
+  forall (A : Type) (l : list (list A)) n,
+  Forall (fun x => length x = n) l ->
+  length (flatten_list l) = length l * n /\
+  (forall i j x, nth_error l i = Some x -> j < n -> nth_error (flatten_list l) (i * n + j) = nth_error x j).
+Proof. exact @flatten_keeps_count_and_order. Qed.
+
+Theorem C16_flatten_window_scales :
+  forall w n, wlen w <= wcap w ->
+  let f := flatten_window w n in
+  wlen f = wlen w * n /\ wcap f = wcap w * n /\ woff f = woff w * n /\ wlen f <= wcap f.
+Proof. exact flatten_window_scales. Qed.
+
 Print Assumptions C16_split_off_code_spec.
 Print Assumptions C16_split_at_panics_iff.
 Print Assumptions C16_split_at_spec.
@@ -142,3 +164,6 @@ Print Assumptions C16_split_off_windows_hold_the_parts.
 Print Assumptions C16_split_off_windows_spec.
 Print Assumptions C16_split_off_windows_tile.
 Print Assumptions C16_split_off_spare_goes_to_the_end.
+Print Assumptions C16_spare_windows_tile.
+Print Assumptions C16_flatten_keeps_count_and_order.
+Print Assumptions C16_flatten_window_scales.
